@@ -128,14 +128,14 @@ func s3V2(reqURL *url.URL, parsedBase *url.URL, result S3ListBucketResult) []str
 				outlinks = append(outlinks, nextURL.String())
 			}
 		}
-	} else {
-		// Otherwise, we have actual objects in <Contents>
-		for _, obj := range result.Contents {
-			if obj.Size > 0 {
-				fileURL := *parsedBase
-				fileURL.Path += "/" + obj.Key
-				outlinks = append(outlinks, fileURL.String())
-			}
+	}
+
+	// The objects in <Contents>: a page can carry both objects and common prefixes
+	for _, obj := range result.Contents {
+		if obj.Size > 0 {
+			fileURL := *parsedBase
+			fileURL.Path += "/" + obj.Key
+			outlinks = append(outlinks, fileURL.String())
 		}
 	}
 
